@@ -30,3 +30,91 @@ class AttrMapTok(Model):
 
     def __repr__(self):
         return 'Attrs(%s)' % self.tok
+
+
+class NeBytes(Model):
+    """[u8; 8] holding the native-endian bytes of a usize"""
+
+    def __init__(self, v):
+        self.v = v
+
+    def ite(self, c, o):
+        return NeBytes(z3.If(c, self.v, o.v))
+
+    def eq(self, o):
+        return self.v == o.v
+
+
+class DecodedVec(Model):
+    """Vec<u8> produced by base64 decode of string token `tok` under engine `eng`"""
+
+    def __init__(self, eng, tok):
+        self.eng = eng
+        self.tok = tok
+
+
+def _ufs(eng):
+    I, B = z3.IntSort(), z3.BoolSort()
+    return (z3.Function('b64_%s_enc' % eng, I, I), z3.Function('b64_%s_dec_ok' % eng, I, B),
+            z3.Function('b64_%s_dec_len' % eng, I, I), z3.Function('b64_%s_dec_u64' % eng, I, I))
+
+
+def _engine_name(ip, v):
+    from models_core import deref_all
+    e = deref_all(v)
+    if isinstance(e, Opaque):
+        nm = str(e.data if e.data is not None else e.tag).split('::')[-1]
+        if nm.startswith('promoted') or not nm.isidentifier():
+            raise Unsupported('base64 engine constant not resolved: %r' % (e,))
+        return nm
+    raise Unsupported('base64 engine %r' % (e,))
+
+
+def install(ctx):
+    from models_str import StrTok, Str
+    from models_core import ok, err, some, NONE
+    M = ctx.models
+
+    @M.reg('usize::to_ne_bytes', 'u64::to_ne_bytes', 'core::num::to_ne_bytes', 'num::to_ne_bytes', '::to_ne_bytes')
+    def to_ne_bytes(ip, pc, args, dt):
+        return NeBytes(args[0].t)
+
+    @M.reg('usize::from_ne_bytes', 'u64::from_ne_bytes', 'num::from_ne_bytes', '::from_ne_bytes')
+    def from_ne_bytes(ip, pc, args, dt):
+        return S(args[0].v, 'usize')
+
+    @M.reg('<GeneralPurpose as Engine>::encode', '<Engine>::encode')
+    def b64_encode(ip, pc, args, dt):
+        eng = _engine_name(ip, args[0])
+        data = args[1]
+        from models_core import deref_all
+        data = deref_all(data)
+        enc, dok, dlen, dval = _ufs(eng)
+        if isinstance(data, NeBytes):
+            t = enc(data.v)
+            # contract of a base64 engine: decoding (with the same engine) what it encoded gives the bytes back
+            ip.path.assume(z3.And(dok(t), dlen(t) == 8, dval(t) == data.v))
+            return StrTok(t)
+        if isinstance(data, BytesTok):
+            f = z3.Function('b64_%s_enc_bytes' % eng, z3.IntSort(), z3.IntSort())
+            return StrTok(f(data.tok))
+        raise Unsupported('base64 encode of %r' % (data,))
+
+    @M.reg('<GeneralPurpose as Engine>::decode', '<Engine>::decode')
+    def b64_decode(ip, pc, args, dt):
+        eng = _engine_name(ip, args[0])
+        from models_core import deref_all
+        s = deref_all(args[1])
+        if not isinstance(s, StrTok):
+            raise Unsupported('base64 decode of a byte-level string')
+        enc, dok, dlen, dval = _ufs(eng)
+        ip.path.assume(z3.And(dlen(s.tok) >= 0, dval(s.tok) >= 0, dval(s.tok) < (1 << 64)))
+        return Enum('Result', z3.If(dok(s.tok), 0, 1), {0: (DecodedVec(eng, s.tok),), 1: (Opaque('DecodeError'),)})
+
+    @M.reg('<Vec as TryInto>::try_into')
+    def vec_try_into(ip, pc, args, dt):
+        v = args[0]
+        if isinstance(v, DecodedVec):
+            enc, dok, dlen, dval = _ufs(v.eng)
+            return Enum('Result', z3.If(dlen(v.tok) == 8, 0, 1), {0: (NeBytes(dval(v.tok)),), 1: (v,)})
+        return NotImplemented
